@@ -53,9 +53,14 @@ fn main() {
             let Some((_, _, replay)) = sets::all().into_iter().find(|(n, _, _)| n == set) else {
                 eprintln!("unknown set {set}"); std::process::exit(2);
             };
-            match replay(ob, &case) {
-                Ok(msg) => { println!("HOLDS: {msg}"); },
-                Err(msg) => { println!("FAILS: {msg}"); std::process::exit(1); },
+            match std::panic::catch_unwind(|| replay(ob, &case)) {
+                Ok(Ok(msg)) => { println!("HOLDS: {msg}"); },
+                Ok(Err(msg)) => { println!("FAILS: {msg}"); std::process::exit(1); },
+                Err(_) => {
+                    let why = LAST_PANIC.lock().map(|g| g.clone()).unwrap_or_default();
+                    eprintln!("PANIC: {why}");
+                    std::process::exit(101);
+                },
             }
         },
         _ => { eprintln!("usage: bounded list|run|replay"); std::process::exit(2); },
